@@ -488,10 +488,14 @@ def r8(ctx):
     from rules import c07
     sub = type(ctx)(ctx.prog, ctx.prop, ctx.tier, ctx.depth)
     H = c07.r2(sub)
+    # of C07.R2: the step over a chunk covers its last, partial word (an untorn chunk needs the guard words behind its bytes, not in them)
+    keep = [r for r in sub.results if r['key'] == 'step-rounds-up']
     sub.results = []
     c07.r1(sub, H)
     c07.r6(sub)
-    for r in sub.results:
+    # C07.R9: a peek gives its count back (peek + reclaim is one of the two ways to read, in the property's own words)
+    c07.r9(sub)
+    for r in keep + sub.results:
         r['rule'] = 'R8'
         ctx.results.append(r)
 
